@@ -187,6 +187,75 @@ func runHist(kind string, scripts []string, yield bool, rng *wh.Rng) []ev {
 	return evs
 }
 
+// parked winner: the call that decides the message is held at the hook point between writing the state and closing the
+// channel (inside the critical section of the unchanged code) while a second goroutine runs a script against the same
+// message; calls of the script that have to wait for the mutex are given 20 ms, then the winner is released.
+// The history (with the winner's call spanning the script) must be linearizable like any other.
+func runParked(kind string, first byte, script string, at string) ([]ev, bool) {
+	m := build(kind)
+	var clock int64
+	arrived := make(chan struct{}, 1)
+	release := make(chan struct{})
+	var once sync.Once
+	var parkedG int64
+	message.SetVerifHook(func(name string, args ...string) {
+		if (name == "message.ack."+at || name == "message.nack."+at) && atomic.CompareAndSwapInt64(&parkedG, 0, 1) {
+			arrived <- struct{}{}
+			<-release
+		}
+	})
+	defer message.SetVerifHook(nil)
+	rel := func() { once.Do(func() { close(release) }) }
+	var evs []ev
+	aDone := make(chan ev, 1)
+	go func() {
+		c := atomic.AddInt64(&clock, 1)
+		res := applyRaw(m, first)
+		rt := atomic.AddInt64(&clock, 1)
+		aDone <- ev{first, c, rt, res}
+	}()
+	parked := false
+	select {
+	case <-arrived:
+		parked = true
+	case e := <-aDone: // no hook point in this tree (or the call lost): plain sequential history
+		aDone <- e
+	case <-time.After(time.Second):
+	}
+	for i := 0; i < len(script); i++ {
+		op := script[i]
+		c := atomic.AddInt64(&clock, 1)
+		done := make(chan byte, 1)
+		go func() { done <- applyRaw(m, op) }()
+		var res byte
+		select {
+		case res = <-done:
+		case <-time.After(20 * time.Millisecond):
+			rel() // the call waits for the mutex the parked winner holds: let the winner finish
+			select {
+			case res = <-done:
+			case <-time.After(blockBound):
+				res = 'B'
+				blockedSeen++
+			}
+		}
+		rt := atomic.AddInt64(&clock, 1)
+		evs = append(evs, ev{op, c, rt, res})
+		if res == 'B' {
+			break
+		}
+	}
+	rel()
+	select {
+	case e := <-aDone:
+		evs = append(evs, e)
+	case <-time.After(blockBound):
+		evs = append(evs, ev{first, 0, atomic.AddInt64(&clock, 1), 'B'})
+		blockedSeen++
+	}
+	return evs, parked
+}
+
 func overlaps(evs []ev) int {
 	n := 0
 	for i := range evs {
@@ -233,6 +302,47 @@ func main() {
 	}
 	enumSeq(out, maxLen)
 	rng := wh.NewRng(a.Seed)
+	// parked winner x every script of length <= 3 (4 in the thorough tier) of the second goroutine
+	parkLen := 3
+	if a.Thorough() {
+		parkLen = 4
+	}
+	for _, kind := range kinds {
+		alpha := alphabet
+		if kind == "zero" {
+			alpha = "an" // see below: reads on zero values race by design
+		}
+		var scripts []string
+		var gen func(prefix string)
+		gen = func(prefix string) {
+			if len(prefix) > 0 {
+				scripts = append(scripts, prefix)
+			}
+			if len(prefix) == parkLen {
+				return
+			}
+			for i := 0; i < len(alpha); i++ {
+				gen(prefix + string(alpha[i]))
+			}
+		}
+		gen("")
+		for _, at := range []string{"decided", "closing"} {
+			for _, first := range []byte{'a', 'n'} {
+				for _, sc := range scripts {
+					if blockedSeen > 0 {
+						break
+					}
+					evs, parked := runParked(kind, first, sc, at)
+					out.Case(histReq(kind, evs), "lin")
+					if parked {
+						out.Count("parked." + at + ".kind." + kind)
+					} else {
+						out.Count("parked.nohook")
+					}
+				}
+			}
+		}
+	}
 	for i := 0; i < nHist && blockedSeen == 0; i++ {
 		kind := kinds[rng.Intn(3)]
 		g := 2 + rng.Intn(15)
